@@ -344,6 +344,54 @@ def r7_unwrap_writeback_twins(ctx):
         return sorted(out)
     ctx.ob(stm.where, "streamed windows build the same interval columns (chromosome, position - left, position + right, strand)", cols(mem, False) == cols(stm, True) and bool(cols(mem, False)),
            f"{cols(stm, True)}", key="C11-R7|windows-columns")
+    # (d) values under stranded intervals: the streamed selector is the in-memory selector (same strand test, same sides) - they differ e.g. on strand '.'
+    GT = "bionumpy.genomic_data.genomic_track"
+    memx = ix.func(GT, "GenomicArrayGlobal.extract_intervals")
+    stx = ix.func(GT, "GenomicArrayNode.extract_intervals.<locals>.stranded_func")
+
+    def selector(fn):
+        out = []
+        for c in func_calls(fn.node):
+            if u(c.func) == "np.where" and len(c.args) == 3:
+                cond = c.args[0]
+                cmp_ = [x for x in ast.walk(cond) if isinstance(x, ast.Compare) and len(x.ops) == 1 and isinstance(x.comparators[0], ast.Constant)]
+                if cmp_:
+                    out.append((type(cmp_[0].ops[0]).__name__, cmp_[0].comparators[0].value, sym.canon(c.args[1], local_env(fn.node)), sym.canon(c.args[2], local_env(fn.node))))
+        return out
+    sm, ss = selector(memx), selector(stx)
+    ctx.need(len(sm) == 1 and len(ss) == 1, "extract_intervals: strand selector not found in one of the twins")
+    # compare (operator, strand literal) and which side is the reversed one
+    rev_m = "[:, ::-1]" in sm[0][2].replace(" ", "").replace("(", "").replace(")", "") or "::-1" in sm[0][2]
+    rev_s = "::-1" in ss[0][2]
+    ctx.ob(stx.where, "the streamed extraction selects forward / reversed rows with the same strand test as the in-memory extraction (rows that are neither '+' nor '-' "
+           "must be treated alike)", sm[0][:2] == ss[0][:2] and rev_m == rev_s, f"in-memory {sm[0][:2]} reversed-first={rev_m}; streamed {ss[0][:2]} reversed-first={rev_s}", key="C11-R7|extract-selector")
+    # (e) a computation node keeps no per-buffer state other than its current buffer and index: arguments are resolved into locals for every buffer
+    gb = ix.func(CG, "ComputationNode._get_buffer")
+    writes = []
+    for x in body_walk(gb.node):
+        tgts = x.targets if isinstance(x, ast.Assign) else ([x.target] if isinstance(x, (ast.AugAssign, ast.AnnAssign)) else [])
+        for t in tgts:
+            base = t
+            while isinstance(base, ast.Subscript):
+                base = base.value
+            if isinstance(base, ast.Attribute) and u(base.value) == "self" and base.attr not in ("_current_buffer", "_buffer_index"):
+                writes.append(u(x))
+    ctx.ob(gb.where, "evaluating a buffer writes no node state except the current buffer and its index (lazy arguments are resolved afresh for every buffer, never stored back)",
+           not writes, "; ".join(writes), key="C11-R7|node-state")
+    fcall = [c for c in func_calls(gb.node) if u(c.func) == "self._func"]
+    ok = len(fcall) == 1 and [u(a) for a in fcall[0].args] == ["*args"] and [u(k.value) for k in fcall[0].keywords if k.arg is None] == ["kwargs"]
+    ctx.ob(gb.where, "the node's function is called with the buffers resolved for THIS index (local args / kwargs)", ok, u(fcall[0]) if fcall else "", key="C11-R7|node-call")
+    # (f) group labels: every group of groupby() is labelled with the caller's key callable
+    gby = ix.func("bionumpy.streams.groupby_func", "groupby")
+    kparam = gby.params[2]
+    labels = []
+    for c in func_calls(gby.node):
+        if u(c.func) == "grouped_stream" and c.args and isinstance(c.args[0], ast.GeneratorExp) and isinstance(c.args[0].elt, ast.Tuple):
+            lab = c.args[0].elt.elts[0]
+            labels.append(u(lab.func) if isinstance(lab, ast.Call) else u(lab))
+    ctx.floor("group label sites in groupby", len(labels), 2)
+    ctx.ob(gby.where, f"every group (single-group fast path and general path) is labelled with the caller's `{kparam}` callable", all(l == kparam for l in labels), str(labels),
+           key="C11-R7|group-label")
 
 
 from ..through_time import make_rule as _mk_tt
